@@ -31,6 +31,10 @@ def plan(tier: str):
             ('geophires', mc.GEO_BASE, [('Utilization Factor', 'uniform', 0.6, 1.25, None), ('Gradient 1', 'normal', 60.0, 3.0, None)],
              mc.GEO_OUTPUTS[:2], 24, 8),
             ('hip_ra_x', mc.HIP_BASE, [('Reservoir Porosity', 'uniform', 5.0, 140.0, None)] + mc.HIP_INPUTS[:1], mc.HIP_OUTPUTS, 64, 2),
+            # unbounded distributions with real mass beyond the parameter's declared bound, as the only input: such draws fail their
+            # iteration, they are not moved (a pile of equal vectors on the bound would show)
+            ('geophires', mc.GEO_BASE, [('Utilization Factor', 'normal', 0.97, 0.05, None)], mc.GEO_OUTPUTS[:1], 24, 4),
+            ('hip_ra_x', mc.HIP_BASE, [('Reservoir Porosity', 'lognormal', 4.4, 0.5, None)], mc.HIP_OUTPUTS[:1], 32, 4),
             # quantities of extreme scale and a very narrow distribution: a draw must reach the simulator with all its digits
             ('geophires', mc.GEO_BASE, [('Reservoir Permeability', 'uniform', 1e-14, 1e-12, None), ('Reservoir Volume', 'normal', 2.0e9, 1.0e8, None)],
              mc.GEO_OUTPUTS[:1], 12, 4),
